@@ -1,10 +1,10 @@
 CONSTANTS
   MaxLen = 3
   Cap = 2
-  AllowClose = TRUE
-  EmitUnlocked = FALSE
+  AllowClose = FALSE
+  EmitUnlocked = TRUE
   StallFire = FALSE
-  FixedTimer = FALSE
+  FixedTimer = TRUE
 SPECIFICATION Spec
 INVARIANTS NoPanic NoStateClobber ExactlyOneEOFLast TimingExact
 CHECK_DEADLOCK TRUE
